@@ -27,12 +27,63 @@ class FuncInfo:
         runs; the AST rules keep looking at the source as written)"""
         n = getattr(self, '_norm', None)
         if n is None:
-            from .normalize import normalized as _nz
-            n = FuncInfo(self.module, self.cls, _nz(self.node))
+            from .normalize import normalized as _nz, inline_expression_helpers as _ieh
+            n = FuncInfo(self.module, self.cls, _nz(_ieh(self.node, self._helper_resolver())))
             n._norm = n
             n._orig = self
             self._norm = n
         return n
+
+    def _helper_resolver(self):
+        """call node -> (params, expression, defaults, skip_self) for a private helper of the repository that only returns
+        an expression of its arguments: a @staticmethod / a method no subclass overrides called on self or on the class,
+        or a module-level function"""
+        from .normalize import expression_of
+        repo = getattr(self.module, 'repo', None)
+
+        def overridden(ci, name):
+            return any(name in c.methods for c in repo.all_classes() if c is not ci and ci in c.mro())
+
+        def res(call):
+            f = call.func
+            try:
+                if isinstance(f, ast.Name) and f.id.startswith('_') and repo is not None:
+                    r = repo.resolve_name(self.module, f.id)
+                    if r and r[0] == 'func' and r[1].node is not self.node:
+                        e = expression_of(r[1].node)
+                        return (e[0], e[1], e[2], False) if e else None
+                if isinstance(f, ast.Attribute) and f.attr.startswith('_') and not f.attr.startswith('__') and isinstance(f.value, ast.Name):
+                    ci = None
+                    if f.value.id == 'self' and self.cls is not None:
+                        ci = self.cls
+                    elif repo is not None:
+                        r = repo.resolve_name(self.module, f.value.id)
+                        if r and r[0] == 'class':
+                            ci = r[1]
+                    if ci is None:
+                        return None
+                    t = ci.lookup(f.attr)
+                    if t is None or t.node is self.node:
+                        return None
+                    decs = t.decorators()
+                    definer = t.cls
+                    if overridden(definer, f.attr) or (ci is not definer and f.attr in ci.methods and ci.methods[f.attr] is not t):
+                        return None
+                    e = expression_of(t.node)
+                    if e is None:
+                        return None
+                    if 'staticmethod' in decs:
+                        return (e[0], e[1], e[2], False)
+                    if 'classmethod' in decs or 'property' in decs:
+                        return None
+                    if f.value.id != 'self':
+                        return None
+                    # an instance method: its `self` is the caller's `self`
+                    return (e[0], e[1], e[2], True)
+            except Exception:
+                return None
+            return None
+        return res
 
     @property
     def qualname(self) -> str:
@@ -133,6 +184,23 @@ class ClassInfo:
                 return c.methods[name]
         return None
 
+    def own(self, name: str) -> Optional[FuncInfo]:
+        """the method as this class defines it - also when the definition has been moved into a base class that the
+        confirmed tree does not have (an extracted private mixin / base): for every rule that asks what *this* class
+        does, that is still this class's own method, analysed in this class's context"""
+        f = self.methods.get(name)
+        if f is not None:
+            return f
+        from . import vocab
+        try:
+            known = set(vocab.load()['classes'])
+        except (OSError, ValueError):
+            return None
+        for c in self.mro()[1:]:
+            if name in c.methods:
+                return c.methods[name] if c.name not in known else None
+        return None
+
     def lookup_after(self, after: 'ClassInfo', name: str) -> Optional[FuncInfo]:
         """super() lookup: first definition after `after` in self's MRO"""
         m = self.mro()
@@ -208,7 +276,7 @@ def _c3(cls: ClassInfo) -> List[ClassInfo]:
 
 
 class Module:
-    def __init__(self, repo: 'Repo', name: str, path: str, relpath: str, source: Optional[str] = None):
+    def __init__(self, repo: 'Repo', name: str, path: str, relpath: str, source: Optional[str] = None, tree=None):
         self.repo = repo
         self.name = name
         self.path = path
@@ -216,10 +284,13 @@ class Module:
         src = source if source is not None else open(path, encoding='utf-8').read()
         self.source = src
         self.digest = hashlib.sha256(src.encode()).hexdigest()[:16]
-        try:
-            self.tree = ast.parse(src, filename=path)
-        except SyntaxError as e:
-            raise AnalysisError('cannot parse %s: %s' % (relpath, e))
+        if tree is not None:
+            self.tree = tree
+        else:
+            try:
+                self.tree = ast.parse(src, filename=path)
+            except SyntaxError as e:
+                raise AnalysisError('cannot parse %s: %s' % (relpath, e))
         self.classes: Dict[str, ClassInfo] = {}
         self.functions: Dict[str, FuncInfo] = {}
         self.imports: Dict[str, Tuple[str, Optional[str]]] = {}   # local -> (module, attr|None)
@@ -276,6 +347,7 @@ class Repo:
         pkg_dir = os.path.join(root, package)
         if not os.path.isdir(pkg_dir):
             raise AnalysisError('package directory not found: ' + pkg_dir)
+        found = []
         for d, dirs, files in os.walk(pkg_dir):
             dirs[:] = sorted(x for x in dirs if x != '__pycache__')
             if '__init__.py' not in files:
@@ -288,7 +360,22 @@ class Repo:
                     name = rel[:-3].replace(os.sep, '.')
                     if name.endswith('.__init__'):
                         name = name[:-9]
-                    self.modules[name] = Module(self, name, path, rel, overlay.get(rel))
+                    src = overlay.get(rel)
+                    if src is None:
+                        src = open(path, encoding='utf-8').read()
+                    try:
+                        tree = ast.parse(src, filename=path)
+                    except SyntaxError as e:
+                        raise AnalysisError('cannot parse %s: %s' % (rel, e))
+                    found.append((name, path, rel, src, tree))
+        # private names renamed throughout the package are read under their old names (onlsa/vocab.py)
+        from . import vocab
+        trees = {rel: tree for (_n, _p, rel, _s, tree) in found}
+        self.renamed = vocab.renames(trees)
+        if self.renamed:
+            vocab.apply(trees, self.renamed)
+        for (name, path, rel, src, _t) in found:
+            self.modules[name] = Module(self, name, path, rel, src, tree=trees[rel])
         self._link()
 
     # -- resolution -----------------------------------------------------------
@@ -366,6 +453,33 @@ class Repo:
         if f is None:
             raise AnalysisError('anchor vanished: method %s.%s' % (clsname, meth))
         return f
+
+    def known_classes(self):
+        from . import vocab
+        try:
+            return set(vocab.load()['classes'])
+        except (OSError, ValueError):
+            return None
+
+    def is_extracted_base(self, c: ClassInfo) -> bool:
+        """a class the confirmed tree does not have, introduced as a base of classes it does have (an extracted private
+        mixin / base class): rules that ask what each element class does judge its subclasses - in their own context, where
+        the inherited definitions are found - not the base standing alone"""
+        known = self.known_classes()
+        if known is None or c.name in known:
+            return False
+        return any(c in k.mro()[1:] for k in self.all_classes() if k.name in known)
+
+    def known_method_names(self):
+        from . import vocab
+        try:
+            v = vocab.load()
+        except (OSError, ValueError):
+            return None
+        out = set()
+        for ms in v['methods'].values():
+            out |= set(ms)
+        return out
 
     def all_classes(self) -> List[ClassInfo]:
         return [c for m in self.modules.values() for c in m.classes.values()]
